@@ -193,38 +193,42 @@ func pointOnSegment(p, l1, l2 Point) bool {
 //     Return: the shortest distance from P to S
 // from http://geomalgorithms.com/a02-_lines.html
 func distPointToSegment(p, segStart, segEnd Point) float64 {
-	// The dot products below overflow or underflow when the coordinate
-	// differences are very large or very small although the distance itself
-	// is an ordinary number: work on a copy rescaled by an exact power of two.
-	if e := extremeExponent(p, segStart, segEnd); e != 0 {
-		s := func(q Point) Point { return Point{math.Ldexp(q.X, -e), math.Ldexp(q.Y, -e)} }
-		return math.Ldexp(distPointToSegment(s(p), s(segStart), s(segEnd)), e)
-	}
+	// Only the differences to the start of the segment matter.
 	v := pointSubtract(segEnd, segStart)
 	w := pointSubtract(p, segStart)
+	// The dot products below overflow or underflow when the differences are
+	// very large or very small although the distance itself is an ordinary
+	// number: work on differences rescaled by an exact power of two.
+	if e := extremeExponent(v, w); e != 0 {
+		s := func(q Point) Point { return Point{math.Ldexp(q.X, -e), math.Ldexp(q.Y, -e)} }
+		return math.Ldexp(distToSegmentFromOrigin(s(v), s(w)), e)
+	}
+	return distToSegmentFromOrigin(v, w)
+}
 
+// distToSegmentFromOrigin returns the distance of w from the segment that
+// runs from the origin to v.
+func distToSegmentFromOrigin(v, w Point) float64 {
 	c1 := dot(w, v)
 	if c1 <= 0. {
-		return d(p, segStart)
+		return norm(w)
 	}
 
 	c2 := dot(v, v)
 	if c2 <= c1 {
-		return d(p, segEnd)
+		return norm(pointSubtract(w, v))
 	}
 
 	b := c1 / c2
-	pb := Point{segStart.X + b*v.X, segStart.Y + b*v.Y}
-	return d(p, pb)
+	return norm(Point{w.X - b*v.X, w.Y - b*v.Y})
 }
 
-// extremeExponent returns the binary exponent of the largest coordinate
-// difference between p and the segment if squaring it would leave the range of
-// float64, and 0 otherwise.
-func extremeExponent(p, segStart, segEnd Point) int {
+// extremeExponent returns the binary exponent of the largest component of
+// v and w if squaring it would leave the range of float64, and 0 otherwise.
+func extremeExponent(v, w Point) int {
 	m := math.Max(
-		math.Max(math.Abs(segEnd.X-segStart.X), math.Abs(segEnd.Y-segStart.Y)),
-		math.Max(math.Abs(p.X-segStart.X), math.Abs(p.Y-segStart.Y)))
+		math.Max(math.Abs(v.X), math.Abs(v.Y)),
+		math.Max(math.Abs(w.X), math.Abs(w.Y)))
 	if m == 0 || math.IsInf(m, 0) || math.IsNaN(m) {
 		return 0
 	}
